@@ -366,17 +366,20 @@ def big_inputs(rng, sizes):
     / sources whose hop counts and paths are judged: the first and the last node of the numbering
     AND of the construction (the two ends of a chain), plus 3 drawn ones.  Every run visits every
     regime: a quarter of the inputs (at least one) are uncut long chains (hop counts beyond 127), a
-    quarter (at least one) carry the wide code set; which size range gets which is drawn."""
+    quarter (at least one as plain lengths and one as 'inv' weights) carry the wide code set; which
+    size range gets which is drawn."""
     k = len(sizes)
     q = max(1, k // 4)
     kinds = ["longchain"] * q + [None] * (k - q)
-    wides = [True] * q + [False] * (k - q)
+    wides = (["len", "inv"] * q)[:max(2, q)] + [None] * (k - max(2, q))     # one per transform branch at least
     rng.shuffle(kinds)
     rng.shuffle(wides)
     out = []
     for (lo, hi), kind, wide in zip(sizes, kinds, wides):
-        name, n, edges, und, pos = big_support(rng, lo, hi, kinds=(kind,) if kind else BIG_KINDS, want_pos=True)
-        mode = rng.choice(["len", "inv"]) if wide else rng.choice(["len", "len", "inv", "bin"])
+        # wide codes on the long sparse kinds only: there the path totals do leave float32's exact range
+        pool_ = (kind,) if kind else (("chain", "ring+chords", "longchain") if wide else BIG_KINDS)
+        name, n, edges, und, pos = big_support(rng, lo, hi, kinds=pool_, want_pos=True)
+        mode = wide or rng.choice(["len", "len", "inv", "bin"])
         codes = WIDE_CODES[mode] if wide else rng.choice(BIG_CODES[mode])
         sources = sorted(set([0, n - 1, pos.index(0), pos.index(n - 1)] + rng.sample(range(n), 3)))
         out.append((name + ("/wide" if wide else ""), n, und, mode, codes,
@@ -494,12 +497,13 @@ def build_jobs(ctx):
     # ---- scale regime 1: a dense part next to a long sparse part (clique of 12..30 + path of 36..80
     #      nodes, joined or as two components, or two disjoint copies; shuffled numbering; 50..110
     #      nodes): walk counts explode in the clique (beyond 2^63 and beyond float32's 3.4e38, still
-    #      far below float64's 1.8e308) while the path keeps the power iterations going - the stress
-    #      case for counting / matrix-power implementations (binary distances, all ten calls).
+    #      far below float64's 1.8e308 - beyond that, from about clique 60 + path 180, the walk counts of
+    #      distance_bin / reachdist / efficiency_bin themselves overflow) while the path keeps the power
+    #      iterations going - the stress case for counting / matrix-power implementations (all ten calls).
     #      Judged with the BFS-by-levels oracle (Trace_Distance!DistOf, mc: FastOracleInv).
-    joins = [True, False] * (2 if q else 5)           # both kinds in every run, order from the RNG
+    joins = [True, False] * (1 if q else 5)           # both kinds in every run, order from the RNG
     rng.shuffle(joins)
-    for k in range(3 if q else 10):
+    for k in range(2 if q else 10):
         while True:
             m, L = rng.randint(12, 30), rng.randint(36, 80)
             copies = 2 if rng.random() < 0.25 else 1
@@ -519,14 +523,17 @@ def build_jobs(ctx):
         if rng.random() < 0.5:
             rng.shuffle(perm)
         edges = sorted(set(tuple(sorted((perm[a], perm[b]))) for a, b in edges))
-        jobs += [dict(j, big=1) for j in jobs_for(code_matrix(rng, n, edges, True, "bin"), "bin", "diamonds", rng)]
+        # quick tier: the routines that count walks, their consumers and the five-routine comparison
+        keep = ("distance_bin", "reachdist", "distance_agree", "charpath", "efficiency_bin")
+        jobs += [dict(j, big=1) for j in jobs_for(code_matrix(rng, n, edges, True, "bin"), "bin", "diamonds", rng)
+                 if not q or j["fn"] in keep]
     # ---- scale regime 2: 130..300 (thorough: ..400) nodes - more than an int8 / uint8 index or hop
     #      counter holds -, rings with chords, long chains, clique + path, grids, cut into two components
     #      or not, directed or not; lengths {1,2,3}, one value, or a wide set whose path totals leave
     #      the exact range of float32; 'inv' weights down to 2^-20.  distance_wei and distance_wei_floyd,
     #      judged row by row by the one-pass equation that only the true distance row solves
     #      (Distance!IsDistRow; hop counts for a drawn sample of sources: Distance!MinHopsRow).
-    for name, n, und, mode, codes, K, rows in big_inputs(rng, [(130, 200), (257, 300)] if q else
+    for name, n, und, mode, codes, K, rows in big_inputs(rng, [(130, 200), (201, 256), (257, 300)] if q else
                                                          [(130, 160), (161, 256), (257, 300), (301, 400)] * 2):
         for fn in ("distance_wei", "distance_wei_floyd"):
             floyd = fn == "distance_wei_floyd"
